@@ -1,4 +1,5 @@
 import JellyModel
+import JellyProofs.Lemmas.RowBracket
 /-!
 # C18 — a statement too big for the lookup tables is refused, not corrupted  (FALSE on the current code)
 # C20 — a rejected statement never poisons the rest of the stream            (FALSE on the current code)
@@ -80,9 +81,7 @@ def catchAndContinue (s : Stream) : List (List Term) → List Bool → Stream ×
     | (s', .error _) => catchAndContinue s' ts (acc ++ [false])
     | (s', .ok _) => catchAndContinue s' ts (acc ++ [true])
 
-/-- After `(a2, p2, <unsupported>)` is rejected, `(a2, p2, o3)` is emitted with subject and predicate
-    elided as "repeated" and decodes as `(a1, p1, o3)`: the stream is accepted by the reference decoder
-    and silently carries different data. -/
+/-- The run of the witness: accepted flags, what the rows in the flow denote, violation if any. -/
 def c20Run : Option (List Bool × List Event × Option (Nat × Spec.Violation)) :=
   match Stream.new .triple { frameSize := 250, preset := { maxNames := 8, maxPrefixes := 8, maxDatatypes := 8 } } with
   | .error _ => none
@@ -90,10 +89,14 @@ def c20Run : Option (List Bool × List Event × Option (Nat × Spec.Violation)) 
     let r := catchAndContinue s0.enroll c20Ops []
     some (r.2, (Spec.runRows r.1.flow.rows).2)
 
-theorem C20_counterexample :
-    c20Run = some ([true, false, true],
-      [.stmt [.iri "http://x/a1", .iri "http://x/p1", .iri "http://x/o1"],
-       .stmt [.iri "http://x/a1", .iri "http://x/p1", .iri "http://x/o3"]], none) := by
+/-- Regression witness for the repaired defect (`fixed: C20-state-after-rejection`). Before the repair
+    the run was `[true, false, true]` and the third statement `(a2, p2, o3)`, emitted with subject and
+    predicate elided as "repeated", decoded as `(a1, p1, o3)`. Now `(a2, p2, <unsupported>)` is rejected
+    after it had used the lookup tables, so the stream refuses the third statement, and what was written
+    denotes exactly the one accepted statement. -/
+theorem C20_regression_witness :
+    c20Run = some ([true, false, false],
+      [.stmt [.iri "http://x/a1", .iri "http://x/p1", .iri "http://x/o1"]], none) := by
   decide +kernel
 
 /-- What does hold (1): a rejected statement never reaches the flow — whatever was written or
@@ -113,42 +116,48 @@ theorem C20_rejection_leaves_flow_untouched (exc : PyErr) (s s' : Stream) (terms
     · injection h with h1 h2; subst h1; exact ⟨rfl, rfl⟩
     · simp at h
 
-/-- A stream with the row-local bookkeeping of its encoder (`pinned`, reset at the start of every
-    row) forgotten. -/
-def Stream.unpin (s : Stream) : Stream := { s with enc := s.enc.unpin }
+/-- A stream whose encoder is as the next row would find it if nothing is wrong: no pins, no open row. -/
+def Stream.idle (s : Stream) : Stream := { s with enc := s.enc.idle }
 
-/-- What does hold (2): a rejection that did not get to change the encoder (the failing term is the
-    first thing the statement touches) leaves no trace at all — up to the row-local `pinned`
-    bookkeeping, which the next row resets anyway (`unpin_irrelevant`). -/
+/-- What does hold (2): a rejection that did not get to use the lookup tables leaves no trace at all:
+    the repeated terms are put back, and up to the row-local bookkeeping (`idle`) the stream is what it
+    was. -/
 theorem C20_clean_rejection_leaves_no_trace (exc : PyErr) (s s' : Stream) (terms : List Term) (e : PyErr) :
-    (s.triple exc terms = (s', .error e) → s'.enc.unpin = s.enc.unpin → s'.unpin = s.unpin) ∧
-    (s.quad exc terms = (s', .error e) → s'.enc.unpin = s.enc.unpin → s'.unpin = s.unpin) := by
+    (s.triple exc terms = (s', .error e) → s'.enc.te.endRow = s.enc.te.endRow → s'.idle = s.idle) ∧
+    (s.quad exc terms = (s', .error e) → s'.enc.te.endRow = s.enc.te.endRow → s'.idle = s.idle) := by
   constructor
   · intro h he
     unfold Stream.triple at h
     split at h
-    · injection h with h1 h2; subst h1
-      simp only [Stream.unpin, he]
+    · rename_i enc' e' henc
+      injection h with h1 h2; subst h1
+      have hrep : enc'.rep = s.enc.rep := by
+        rcases encodeTriple_err_inv henc with ⟨_, h, _⟩ | ⟨_, st1, _, h⟩ <;> rw [h]
+      simp only [Stream.idle, EncState.idle] at he ⊢
+      rw [he, hrep]
     · simp at h
   · intro h he
     unfold Stream.quad at h
     split at h
-    · injection h with h1 h2; subst h1
-      simp only [Stream.unpin, he]
+    · rename_i enc' e' henc
+      injection h with h1 h2; subst h1
+      have hrep : enc'.rep = s.enc.rep := by
+        rcases encodeQuad_err_inv henc with ⟨_, h, _⟩ | ⟨_, st1, _, h⟩ <;> rw [h]
+      simp only [Stream.idle, EncState.idle] at he ⊢
+      rw [he, hrep]
     · simp at h
 
-/-- `pinned` is row-local: what a statement call does to a stream does not depend on the pins left
-    behind by the previous row. -/
-theorem unpin_irrelevant (exc : PyErr) (s : Stream) (terms : List Term) :
-    s.unpin.triple exc terms = s.triple exc terms ∧ s.unpin.quad exc terms = s.quad exc terms := by
-  have hte : s.unpin.enc.te.startRow = s.enc.te.startRow := rfl
-  have hrep : s.unpin.enc.rep = s.enc.rep := rfl
-  have h3 : encodeTriple exc s.unpin.enc terms = encodeTriple exc s.enc terms := by
-    unfold encodeTriple
-    simp only [hte, hrep]
-  have h4 : encodeQuad exc s.unpin.enc terms = encodeQuad exc s.enc terms := by
-    unfold encodeQuad
-    simp only [hte, hrep]
+/-- The row-local bookkeeping never matters to a stream that is not broken: on such a stream a statement
+    call behaves as on the idle stream. -/
+theorem idle_irrelevant (exc : PyErr) (s : Stream) (terms : List Term) (h : s.enc.te.broken = false) :
+    s.idle.triple exc terms = s.triple exc terms ∧ s.idle.quad exc terms = s.quad exc terms := by
+  have hb : s.idle.enc.te.broken = false := rfl
+  have hte : s.idle.enc.te.startRow = s.enc.te.startRow := rfl
+  have hrep : s.idle.enc.rep = s.enc.rep := rfl
+  have h3 : encodeTriple exc s.idle.enc terms = encodeTriple exc s.enc terms := by
+    rw [encodeTriple_eq hb, encodeTriple_eq h, hte, hrep]
+  have h4 : encodeQuad exc s.idle.enc terms = encodeQuad exc s.enc terms := by
+    rw [encodeQuad_eq hb, encodeQuad_eq h, hte, hrep]
   constructor
   · unfold Stream.triple
     rw [h3]
@@ -156,5 +165,14 @@ theorem unpin_irrelevant (exc : PyErr) (s : Stream) (terms : List Term) :
   · unfold Stream.quad
     rw [h4]
     rcases encodeQuad exc s.enc terms with ⟨enc', e | rows⟩ <;> rfl
+
+/-- A broken stream refuses every further statement and stays exactly as it is. -/
+theorem broken_refuses (exc : PyErr) (s : Stream) (terms : List Term) (h : s.enc.te.broken = true) :
+    s.triple exc terms = (s, .error .conformance) ∧ s.quad exc terms = (s, .error .conformance) := by
+  constructor
+  · unfold Stream.triple
+    rw [encodeTriple_broken h]
+  · unfold Stream.quad
+    rw [encodeQuad_broken h]
 
 end Jelly
